@@ -9,7 +9,7 @@
    reachable cfg g  :=  exists tr, grun fixed cfg (ginit cfg) tr = Some g. *)
 From Coq Require Import List Arith Bool.
 From PV Require Import Model.Pool Proofs.PoolProofs Model.PoolLaunch Proofs.PoolLaunchProofs
-  Model.GrpcJsonStart Proofs.GrpcJsonStartProofs.
+  Model.GrpcJsonStart Proofs.GrpcJsonStartProofs Model.GrpcWarmUp Proofs.GrpcWarmUpProofs.
 Import ListNotations.
 
 (* the correspondence run and the theorems are about the same variant of the code *)
@@ -294,6 +294,80 @@ Theorem C05_grpcjson_read_failure_reported : forall cf k m fuel,
 Proof. exact gj_file_read_failure_reported. Qed.
 Print Assumptions C05_grpcjson_read_failure_reported.
 
+(* ---- gun warm-up: the grpc gun against the target's reflection endpoint (Model/GrpcWarmUp.v) ---- *)
+
+(* For EVERY endpoint (connection, list of services, any number of listed services each answered
+   with descriptors or refused with any status code) and every shared-client configuration:
+   WarmUp returns an error iff the specification says a warm-up cannot succeed against it. *)
+Theorem C05_grpc_warmup_failure_iff_spec : forall rf cp,
+  wres_failed (warm_up tree_policy rf cp) = gw_spec_fails rf.
+Proof. exact warm_up_failure_iff_spec. Qed.
+Print Assumptions C05_grpc_warmup_failure_iff_spec.
+
+(* ... and the error it returns carries the FIRST thing that went wrong (two-sided) *)
+Theorem C05_grpc_warmup_cause_carried : forall rf cp c,
+  warm_up tree_policy rf cp = WFail c <-> gw_spec_cause rf = Some c.
+Proof. exact warm_up_cause_is_spec_cause. Qed.
+Print Assumptions C05_grpc_warmup_cause_carried.
+
+(* a listed service whose descriptors are refused with anything but NOT_FOUND is never swallowed:
+   the warm-up fails, naming the first such service of the list *)
+Theorem C05_grpc_warmup_refusal_never_swallowed : forall rf cp s c,
+  rf_connect rf = true -> rf_list rf = None ->
+  In (s, RsErr c) (rf_services rf) -> refusal_is_failure c = true ->
+  exists s' c' pre post, warm_up tree_policy rf cp = WFail (WcResolve s' c') /\ refusal_is_failure c' = true /\
+    rf_services rf = pre ++ (s', RsErr c') :: post /\ existsb svc_refused pre = false.
+Proof. exact warm_up_refusal_never_swallowed. Qed.
+Print Assumptions C05_grpc_warmup_refusal_never_swallowed.
+
+(* nil means: connected, the list was served, every listed service was resolved or is not there,
+   and the method table holds exactly the methods of the resolved services, each once *)
+Theorem C05_grpc_warmup_nil_means_complete : forall rf cp t n,
+  warm_up tree_policy rf cp = WOk (t, n) ->
+  rf_connect rf = true /\ rf_list rf = None /\
+  (forall s r, In (s, r) (rf_services rf) -> (exists ms, r = RsOk ms) \/ r = RsErr code_not_found) /\
+  (forall k, In k t <-> In k (gw_spec_methods rf)) /\ NoDup t.
+Proof. exact warm_up_nil_complete. Qed.
+Print Assumptions C05_grpc_warmup_nil_means_complete.
+
+(* the error paths of prepareClientPool are dead: the dial that would fail there failed for the
+   reflection connection first (any policy) *)
+Theorem C05_grpc_warmup_pool_causes_unreachable : forall pol rf cp,
+  warm_up pol rf cp <> WFail WcPoolNew /\ warm_up pol rf cp <> WFail WcPoolConnect.
+Proof. exact warm_up_never_pool_cause. Qed.
+Print Assumptions C05_grpc_warmup_pool_causes_unreachable.
+
+(* For ANY treatment of the two classes of ResolveService errors: no failing warm-up is swallowed iff
+   the errors that are not NOT_FOUND are returned; every acceptable endpoint is accepted iff the
+   NOT_FOUND ones are skipped.  The tree's treatment is re-read from the source (Gen/GrpcWarmUp_bridge.v). *)
+Theorem C05_grpc_warmup_policy_never_swallows_iff : forall pol,
+  (forall rf cp, gw_spec_fails rf = true -> wres_failed (warm_up pol rf cp) = true) <-> on_other pol = RaFail.
+Proof. exact policy_never_swallows_iff. Qed.
+Print Assumptions C05_grpc_warmup_policy_never_swallows_iff.
+
+Theorem C05_grpc_warmup_policy_tolerates_not_found_iff : forall pol,
+  (forall rf cp, gw_spec_fails rf = false -> wres_failed (warm_up pol rf cp) = false) <-> on_not_found pol = RaSkip.
+Proof. exact policy_tolerates_not_found_iff. Qed.
+Print Assumptions C05_grpc_warmup_policy_tolerates_not_found_iff.
+
+(* "log and skip whatever the error": a service refused with PERMISSION_DENIED is swallowed *)
+Theorem C05_grpc_warmup_skip_all_refuted :
+  gw_spec_fails (one_service 7) = true /\
+  warm_up skip_all_policy (one_service 7) {| cp_enabled := false; cp_number := 0 |} = WOk ([], 0).
+Proof. exact skip_all_swallows. Qed.
+Print Assumptions C05_grpc_warmup_skip_all_refuted.
+
+(* The engine: in EVERY history (any pools, any interleaving, cancelled or not) in which the pool step
+   of some pool is the warm-up of a grpc gun against an endpoint the specification says it cannot
+   succeed against, Engine.Run does not return nil. *)
+Theorem C05_grpc_warmup_failure_fails_the_run : forall cfg tr g er p rf cp,
+  grun fixed cfg (ginit cfg) tr = Some g -> eng g = Some er ->
+  In (GvPool p (PvPre (gw_pre_outcome (warm_up tree_policy rf cp)))) tr ->
+  gw_spec_fails rf = true ->
+  er_res er <> RNil.
+Proof. exact failed_warm_up_never_a_successful_run. Qed.
+Print Assumptions C05_grpc_warmup_failure_fails_the_run.
+
 (* ---- the tree before the fix commits --------------------------------------------------- *)
 
 (* #4 (fixed by a0becc0): schedule factory error with a shared profile: Wait() never returns *)
@@ -362,3 +436,15 @@ Example C05_example_grpcjson :
   gj_start 1 {| j_limit := 1; j_passes := 1; j_coe := false |} (gj_file 2 2 PoRead) None = (JNil, 1) /\
   gj_start 3 {| j_limit := 0; j_passes := 3; j_coe := false |} (gj_file 2 1 PoNone) None = (JNil, 9).
 Proof. repeat split. Qed.
+
+(* the grpc gun's warm-up: a service refused with PERMISSION_DENIED between two served ones fails the
+   warm-up with that service as the cause; refused with NOT_FOUND it is skipped and the table holds the
+   methods of the other two; and a run whose pool step is the failing warm-up returns that failure *)
+Example C05_example_grpc_warmup :
+  let rf c := {| rf_connect := true; rf_list := None; rf_services := gw_services [gw_methods 2; RsErr c; gw_methods 1] |} in
+  let cp := {| cp_enabled := true; cp_number := 0 |} in
+  warm_up tree_policy (rf 7) cp = WFail (WcResolve 1 7) /\ gw_spec_fails (rf 7) = true /\
+  warm_up tree_policy (rf 5) cp = WOk ([(0, 0); (0, 1); (2, 0)], 1) /\ gw_spec_fails (rf 5) = false /\
+  (exists g er, grun fixed [1] (ginit [1]) [GvPool 0 (PvPre (gw_pre_outcome (warm_up tree_policy (rf 7) cp))); GvEngRecv 0] = Some g /\
+     eng g = Some er /\ er_res er = RFail CWarmUp /\ wait_returns g = true).
+Proof. repeat split. eexists. eexists. split; [vm_compute; reflexivity|repeat split]. Qed.
